@@ -2,7 +2,7 @@
 # confirm_seed.sh <Cxx> <a|b>: confirm one seeded change in its scratch worktree:
 #   patched tree builds, ctest 11/11, demo FAILS with the patch; demo PASSES on the unpatched tree.
 # Writes /tmp/seed/<Cxx>/out/<x>/confirm.json
-ID=$1; X=$2; S=/tmp/seed/$ID; WT=$S/wt; O=$S/out/$X; BASE=/tmp/seed/base
+ROOT=${SEEDROOT:-/tmp/seed}; ID=$1; X=$2; S=$ROOT/$ID; WT=$S/wt; O=$S/out/$X; BASE=$ROOT/base
 CM="-G Ninja -DCMAKE_BUILD_TYPE=RelWithDebInfo -DCMAKE_CXX_FLAGS=-Wno-error -DFETCHCONTENT_SOURCE_DIR_GOOGLETEST=/usr/src/googletest -DFETCHCONTENT_FULLY_DISCONNECTED=ON"
 cd $WT || exit 2
 git checkout -q -- . ; git clean -fdq -e _b
@@ -13,6 +13,8 @@ CT=1; if [ $BUILD = 0 ]; then ctest --test-dir _b -j4 --timeout 300 > $O/ctest.l
 demo_cmd() { # $1 = tree root, $2 = lib dir, $3 = output
   if [ "$ID" = C15 ] && [ "$X" = a ]; then echo "g++ -std=gnu++20 -O1 -g -fsanitize=thread -I$1/include $O/demo.cpp $1/src/threading/ThreadPool.cpp $1/src/threading/Thread.cpp $1/src/threading/Runnable.cpp -pthread -o $3";
   elif [ "$ID" = C15 ] && [ "$X" = b ]; then echo "g++ -std=gnu++20 -O1 -g -fsanitize=thread -I$1/include $O/demo.cpp $1/src/observer/routing/*.cpp $1/src/threading/rwp/Resource.cpp -pthread -o $3";
+  elif grep -q "fsanitize=thread" $O/NOTES.md 2>/dev/null; then echo "g++ -std=gnu++20 -O1 -g -fsanitize=thread -I$1/include $O/demo.cpp $(find $1/src -name '*.cpp' | grep -v DynamicLibrary | tr '\n' ' ') -pthread -o $3";
+  elif grep -q "fsanitize=address" $O/NOTES.md 2>/dev/null && grep -qi "requires\|needs\|only.*asan\|under asan" $O/NOTES.md; then echo "g++ -std=gnu++20 -O1 -g -fsanitize=address -I$1/include $O/demo.cpp $(find $1/src -name '*.cpp' | grep -v DynamicLibrary | tr '\n' ' ') -pthread -o $3";
   else echo "g++ -std=gnu++20 -O1 -g -I$1/include $O/demo.cpp $2/libtulz.a -pthread -o $3"; fi; }
 WITH=0; WITHRC=""
 if [ $BUILD = 0 ]; then
